@@ -447,8 +447,15 @@ fn encodings(cx: &mut Ctx, count: u64, seed: u64) {
             text.to_owned()
         };
         let key_text = Rc::new(text.clone().into_bytes());
+        // Detected runs are compared only for texts that detection takes for YAML when they are in
+        // UTF-8 (what detection answers is C09/C10's business; e.g. a text starting with a quoted
+        // key is a JSON string to the JSON trial).
+        let utf8_detected_yaml = detected_as(text.as_bytes()) == Some("yaml");
         for to in ["json", "yaml", "msgpack"] {
             for from in ["yaml", "detect"] {
+                if from == "detect" && !utf8_detected_yaml {
+                    continue;
+                }
                 // reference: the UTF-8 text from a slice
                 let mut variants: Vec<(String, Vec<u8>)> = vec![("utf8".into(), text.clone().into_bytes())];
                 for enc in val::ENCODINGS {
